@@ -27,6 +27,9 @@ EXHAUSTIVE = {
                 "polars up to 5 nodes, pandas up to 4 nodes); heap: every list length 0..70",
 }
 MODELLED = [
+    "inputs are values on the model side: a sub-dictionary object referenced from two places is seen expanded, and two "
+    "builds from the same input object must both equal the model's single answer; the input itself is deep-compared "
+    "before/after every call (oracle clause 'input not modified')",
     "a relation DataFrame is a list of rows (child, parent|missing, cells); columns are homogeneous "
     "(int|str|bool + missing); pandas' int->float up-casting is normalised (1.0 == 1)",
     "list_to_binarytree computes the parent index as int((i+1)/2)-1 in binary64 floats; the model computes "
